@@ -1380,6 +1380,17 @@ func c01InitialMW(c *an.Ctx) {
 			if !served || strings.Join(serve.Args, ",") != "p0,nonnil:nwrw(p1),p2" {
 				return "the rest of the pipeline serves this request through a non-writer; got " + strings.Join(serve.Args, ",")
 			}
+			// the pipeline (upstream, caches) always sees AD set, whoever asks: what is cached does not depend on the
+			// first requester's AD bit
+			fwdAD := ""
+			for _, st := range o.Stores() {
+				if strings.HasPrefix(st, "p2.MsgHdr.AuthenticatedData=") {
+					fwdAD = strings.TrimPrefix(st, "p2.MsgHdr.AuthenticatedData=")
+				}
+			}
+			if fwdAD != "true" {
+				return fmt.Sprintf("AD set unconditionally in the request handed to the pipeline (the caches keep the upstream's AD for every later requester); got %q", fwdAD)
+			}
 			if f.B("serveerr") {
 				if written || len(o.Ret) != 1 || o.Ret[0].Kind == an.KNil {
 					return "a pipeline error is returned and nothing is written"
